@@ -210,7 +210,7 @@ func (r *Run) finish(meta propertyMeta, verifDir string, start time.Time, seed i
 		}
 		if o.Verdict == Violated {
 			for _, k := range known {
-				if k.Property == r.Property && k.Rule == o.Rule && k.Construct == o.Construct {
+				if k.Property == r.Property && k.Rule == o.Rule && k.Construct == strings.ReplaceAll(o.Construct, " ", "_") {
 					o.Known = true
 					fmt.Printf("KNOWN-FINDING: property=%s %s %s %s\n", r.Property, o.Rule, o.Construct, k.Text)
 					break
